@@ -26,6 +26,7 @@ type c16Case struct {
 }
 
 var two256 = new(big.Int).Lsh(big.NewInt(1), 256)
+var rMinus1c16 = new(big.Int).Sub(ref.R, big.NewInt(1))
 
 func c16Values() map[string]*big.Int {
 	r := ref.R
@@ -61,7 +62,7 @@ var c16ValueNames = func() []string {
 }()
 
 func genC16(t *rapid.T) c16Case {
-	kind := rapid.SampledFrom([]string{"boundary", "boundary", "near", "uniform32", "uniformlen", "sparse", "scalar", "qlimbs", "qlimbs", "multiple", "multiple"}).Draw(t, "kind")
+	kind := rapid.SampledFrom([]string{"boundary", "boundary", "near", "uniform32", "uniformlen", "sparse", "scalar", "qlimbs", "qlimbs", "multiple", "multiple", "hi_multiple"}).Draw(t, "kind")
 	var b []byte
 	switch kind {
 	case "boundary", "near":
@@ -90,6 +91,17 @@ func genC16(t *rapid.T) c16Case {
 		}
 		b = raw
 		kind = fmt.Sprintf("%s:%s:le=%v:w=%d", kind, name, le, width)
+	case "hi_multiple": // 64 bytes: a canonical low half followed (little-endian) / preceded (big-endian) by a half that is an exact multiple of r
+		lo := hx.ExpandFr(rapid.Uint64().Draw(t, "seed"), "c16lo", 0)
+		if rapid.Bool().Draw(t, "lo_small") {
+			lo = big.NewInt(int64(rapid.IntRange(0, 3).Draw(t, "lo")))
+		}
+		hi := new(big.Int).Mul(ref.R, big.NewInt(int64(rapid.IntRange(0, 8).Draw(t, "k"))))
+		if rapid.Bool().Draw(t, "little_endian") {
+			b = append(ref.LE32(lo), ref.LE32(hi)...)
+		} else {
+			b = append(ref.BE32(hi), ref.BE32(lo)...)
+		}
 	case "multiple": // k*r +- d: just below / above a multiple of the modulus, d from 0 up to about 2^189
 		k := int64(rapid.IntRange(0, 9).Draw(t, "k"))
 		v := new(big.Int).Mul(ref.R, big.NewInt(k))
@@ -299,6 +311,15 @@ func evalC16(c c16Case, rec *hx.Rec) error {
 		if rd.Len() != len(b)-32 {
 			return true, fmt.Errorf("consumed %d bytes instead of 32", len(b)-rd.Len())
 		}
+		// the scalar a call returns belongs to the caller: a LATER ReadScalar (of other bytes) must not change it
+		want := *res
+		other := ref.LE32(big.NewInt(11))
+		if r2, err2 := common.ReadScalar(bytes.NewReader(other)); err2 != nil || r2 == nil {
+			return true, fmt.Errorf("ReadScalar of the canonical encoding of 11 failed: %v", err2)
+		}
+		if *res != want {
+			return true, fmt.Errorf("the scalar returned by ReadScalar changed when ReadScalar was called again")
+		}
 		*z = *res
 		return true, nil
 	}); err != nil {
@@ -400,6 +421,18 @@ func TestC16(t *testing.T) {
 						c16Decode.EvalCase(s, c16Case{Bytes: hx.HexBytes(ref.BE32(v)), Class: fmt.Sprintf("qlimbs-be:%d%d%d%d", a, b, c, d)})
 					}
 				}
+			}
+		}
+	}
+	for k := int64(0); k <= 9; k++ { // 64-byte strings whose upper half is an exact multiple of r (the value reduces to the lower half)
+		if hx.Sharded(int(k)) {
+			hi := new(big.Int).Mul(ref.R, big.NewInt(k))
+			if hi.BitLen() > 256 {
+				continue
+			}
+			for _, lo := range []*big.Int{big.NewInt(0), big.NewInt(1), rMinus1c16, hx.ExpandFr(uint64(k), "c16lo", 1)} {
+				c16Decode.EvalCase(s, c16Case{Bytes: hx.HexBytes(append(ref.LE32(lo), ref.LE32(hi)...)), Class: fmt.Sprintf("hi_multiple-le:%d", k)})
+				c16Decode.EvalCase(s, c16Case{Bytes: hx.HexBytes(append(ref.BE32(hi), ref.BE32(lo)...)), Class: fmt.Sprintf("hi_multiple-be:%d", k)})
 			}
 		}
 	}
